@@ -257,7 +257,7 @@ func boundaryProtos(paths []*pathDef) (out []proto) {
 				add(p, "json-wire-stream-max", bare, own, rng(65520, 65536)...)
 				add(p, "json-wire-stream-max", bare, own, 100, 4096, 65000, 66000, 70000, 80000)
 			}
-			for _, nw := range []string{"nil", "error"} {
+			for _, nw := range []string{"nil", "error", "timeout", "deadline"} {
 				out = append(out, proto{path: p, boundary: "silent-handler", form: bare, t: 300, noWrite: nw})
 			}
 
@@ -266,7 +266,7 @@ func boundaryProtos(paths []*pathDef) (out []proto) {
 
 		// A handler that finishes without writing: whatever the server then
 		// generates itself is a response like any other.
-		for _, nw := range []string{"nil", "error"} {
+		for _, nw := range []string{"nil", "error", "timeout", "deadline"} {
 			sets := []string{"none", "do", "nsid5", "cookie", "pad", "ka", "all"}
 			for i, name := range sets {
 				f := withAdv(optSet(name), []int{1232, 512, 4096, 65535}[i%4])
